@@ -1109,9 +1109,79 @@ def gen_badtable_cases(tier):
     return cases
 
 
+def gen_declared_cases(tier):
+    """deterministic (the class of seed C04-10: the enforced duration of an AtomicMultiChannelPT).  A parallel composition
+    with duration=<expression> reports that expression as its duration; build_waveform has to reject every assignment at
+    which the remaining sub waveform(s) do not last that long - whatever the number of sub waveforms that are left: a
+    single sub template, a second part dropped by a MappingPT / the root mapping / create_program(channel_mapping), a
+    second part of duration 0 (literal, parameter), two of three parts dropped, both parts played (control), no part
+    played.  Declared value equal / larger / smaller / zero / equal decimal (TimeType, float) / within the isclose
+    tolerance; first part a ramp table, ConstantPT, FunctionPT, PointPT; alone, SequencePT(RepetitionPT(p, n), p), as
+    one waveform, inside a for-loop."""
+    cases = []
+    c0 = lambda e, ch='c00': {'t': 'const', 'd': e, 'v': {ch: 1}}
+    firsts = [
+        lambda: {'t': 'table', 'chans': {'c00': [lit(0), var('ta')]}, 'v': {'c00': [0, 1]}, 'interp': {'c00': ['hold', 'linear']}},
+        lambda: c0(var('ta')),
+        lambda: {'t': 'func', 'd': var('ta'), 'ch': ['c00'], 'expr': '1'},
+        lambda: {'t': 'point', 'times': [lit(0), var('ta')], 'ch': ['c00'], 'v': [0, 1]},
+    ]
+    marker = lambda ch, x='ta': {'t': 'table', 'chans': {ch: [lit(0), var(x)]}, 'v': {ch: [1, 0]}, 'interp': {ch: ['hold', 'hold']}}
+    # (name, further parts, channels dropped, how they are dropped)
+    arrangements = [('one', lambda: [], [], None),
+                    ('drop_cp', lambda: [marker('c01')], ['c01'], 'cpmap'),
+                    ('drop_map', lambda: [marker('c01')], ['c01'], 'map'),
+                    ('drop_root', lambda: [marker('c01')], ['c01'], 'rootmap'),
+                    ('zero_lit', lambda: [c0(lit(0), 'c01')], [], None),
+                    ('zero_par', lambda: [c0(var('tz'), 'c01')], [], None),
+                    ('drop_two', lambda: [marker('c01'), c0(var('ta'), 'c02')], ['c01', 'c02'], 'map'),
+                    ('first_dropped', lambda: [marker('c01')], ['c00'], 'cpmap'),
+                    ('both', lambda: [marker('c01')], [], None),
+                    ('none', lambda: [marker('c01')], ['c00', 'c01'], 'map')]
+    values = [('3', '3', 'time'), ('3', '5', 'time'), ('3', '1', 'time'), ('3', '0', 'time'), ('0.3', '0.3', 'time'),
+              ('0.3', '0.3', 'float'), ('0.3', '0.7', 'float'), ('1000000', '1000000.0000001', 'time'), ('0.1', '0.3', 'time')]
+    contexts = ['alone', 'rep_seq', 'single', 'for']
+    k = 0
+    for ai, (aname, more, dropped, how) in enumerate(arrangements):
+        for fi, first in enumerate(firsts):
+            for vi, (ta, td, ty) in enumerate(values):
+                for ci, ctxname in enumerate(contexts):
+                    k += 1
+                    main = fi == 0 and vi in (0, 1) and ctxname in ('alone', 'rep_seq')
+                    if tier == 'quick' and not main and (ai + 3 * fi + 5 * vi + 7 * ci) % 11:
+                        continue
+                    pulse = {'t': 'multi', 'subs': [first()] + more(), 'declared': var('td')}
+                    if how == 'map':
+                        pulse = {'t': 'map', 'm': {}, 'cm': {c: None for c in dropped}, 'body': pulse}
+                    if ctxname == 'alone':
+                        tpl = pulse
+                    elif ctxname == 'rep_seq':
+                        tpl = {'t': 'seq', 'subs': [{'t': 'rep', 'count': var('n_1'), 'body': pulse}, copy.deepcopy(pulse)]}
+                    elif ctxname == 'single':
+                        tpl = {'t': 'single', 'body': {'t': 'rep', 'count': lit(2), 'body': pulse}}
+                    else:
+                        tpl = {'t': 'for', 'idx': 'i_1', 'start': lit(0), 'stop': lit(2), 'step': lit(1),
+                               'body': {'t': 'seq', 'subs': [pulse, {'t': 'rep', 'count': var('i_1'), 'body': copy.deepcopy(pulse)}]}}
+                    params = {'ta': tparam(ta, ty if F(ta).denominator != 1 else 'int'),
+                              'td': tparam(td, ty if F(td).denominator != 1 else 'int'),
+                              'tz': tparam('0', 'int'), 'n_1': tparam('4', 'int')}
+                    used = free_params(tpl)
+                    case = {'kind': 'tpl', 'style': 'exact' if ty == 'time' else 'float', 'family': 'declared', 'tpl': tpl,
+                            'params': {x: p for x, p in params.items() if x in used}}
+                    if ctxname == 'rep_seq':
+                        case['alias'] = True
+                    if how == 'cpmap':
+                        case['cpmap'] = {c: None for c in dropped}
+                    elif how == 'rootmap':
+                        case['rootmap'] = {c: (None if c in dropped else c) for c in ('c00', 'c01')}
+                    cases.append(case)
+    return cases
+
+
 def gen_cases(rng, tier, ctx):
     cases = []
     cases.extend(gen_badtable_cases(tier))
+    cases.extend(gen_declared_cases(tier))
     cases.extend(gen_remap_cases(tier))
     cases.extend(gen_drop_cases(tier))
     cases.extend(gen_decimal_cases(tier))
